@@ -13,11 +13,14 @@
    set_eq l1 l2    := forall m, In m l1 <-> In m l2
    canon acc t     : ids/labels/lengths erased, unifurcations suppressed, children sorted by clade mask
    leaves_ok t     : boolean: every leaf has a taxon and the leaf taxa are pairwise distinct
+   ucanon acc t    : canonical form of the UNROOTED topology: the seed is moved along edges (rotations,
+                     reroot) until it is adjacent to the leaf carrying the lowest taxon bit on the tree,
+                     that leaf is dropped, and the rooted canonical form of the rest is taken
    tequiv / uequiv : closure of the elementary moves (child permutation, unifurcation insertion,
                      attribute changes, inside subtrees; uequiv adds moving the seed along an edge) *)
 From Coq Require Import ZArith List Bool.
 From DV Require Import Model.PyPrims Model.Tree Gen.BitFns Model.C01Model
-  Proofs.C01Bits Proofs.C01Enc Proofs.C01Bip Proofs.C01Topo Proofs.C01Examples.
+  Proofs.C01Bits Proofs.C01Enc Proofs.C01Bip Proofs.C01Topo Proofs.C01From Proofs.C01Unrooted Proofs.C01Examples.
 Import ListNotations.
 Open Scope Z_scope.
 
@@ -327,3 +330,106 @@ Print Assumptions unrooted_splits_invariant.
 Theorem collapse_basal_is_unrooted_move : forall t, uequiv t (fst (collapse_basal t)).
 Proof. exact collapse_basal_uequiv. Qed.
 Print Assumptions collapse_basal_is_unrooted_move.
+
+(* splits_iff_topology, unrooted (is_rooted False or None): trees with the same leaf taxa (pairwise
+   distinct), seeds with at least two children: the encodings have equal SETS of split bitmasks iff
+   the trees have the same unrooted canonical form.  Both directions. *)
+Theorem splits_iff_topology_unrooted : forall acc,
+  (forall x, 0 <= acc x) -> (forall x y, acc x = acc y -> x = y) ->
+  forall r1 r2 t1 t2,
+  is_true r1 = false -> is_true r2 = false ->
+  leaves_ok t1 = true -> leaves_ok t2 = true ->
+  (2 <= length (t_kids t1))%nat -> (2 <= length (t_kids t2))%nat ->
+  cmask acc t1 = cmask acc t2 ->
+  (set_eq (enc_splits (encode acc r1 t1)) (enc_splits (encode acc r2 t2)) <-> ucanon acc t1 = ucanon acc t2).
+Proof. exact splits_iff_topology_unrooted_l. Qed.
+Print Assumptions splits_iff_topology_unrooted.
+
+(* ... and the unrooted canonical form is the same for any two trees related by child permutation,
+   unifurcation insertion and moving the seed ("whatever ... the position of the seed node") *)
+Theorem ucanon_invariant_under_moves : forall acc,
+  (forall x, 0 <= acc x) -> (forall x y, acc x = acc y -> x = y) ->
+  forall t1 t2, leaves_ok t1 = true ->
+  (2 <= length (t_kids t1))%nat -> (2 <= length (t_kids t2))%nat ->
+  uequiv t1 t2 -> ucanon acc t1 = ucanon acc t2.
+Proof. exact ucanon_invariant. Qed.
+Print Assumptions ucanon_invariant_under_moves.
+
+(* ============================== from_split_bitmasks ======================================= *)
+(* ns : the namespace's members in order as (taxon id, accession index); count = _current_accession_count;
+   star_m / to_tree / mtree : working trees of from_split_bitmasks (Model/C01Model.v, Proofs/C01From.v);
+   the namespace is consistent with acc:  distinct taxon ids >= 0, index = acc (taxon). *)
+
+(* from_splits_order_irrelevant: two orders of the same list of splits rebuild the same topology,
+   provided the splits that lie inside the namespace's bits (the others are skipped by the code) are
+   pairwise disjoint-or-nested after the de-normalisation step: true for every encoding of one tree *)
+Theorem from_splits_order_irrelevant : forall acc,
+  (forall x, 0 <= acc x) -> (forall x y, acc x = acc y -> x = y) ->
+  forall ns, (NoDup (map fst ns) /\ Forall (fun p => 0 <= fst p /\ snd p = acc (fst p)) ns) ->
+  (2 <= length ns)%nat ->
+  forall count rooted l l', Permutation.Permutation l l' ->
+  ForallOrdPairs (fun a b => mdisjoint a b \/ msubset a b \/ msubset b a)
+    (filter (fun s => Z.eqb (Z.land s (fold_right Z.lor 0 (map (fun p => 2 ^ snd p) ns))) s)
+            (splits_to_add rooted (all_taxa_bitmask count) l)) ->
+  canon acc (to_tree (from_splits ns count rooted l)) = canon acc (to_tree (from_splits ns count rooted l')).
+Proof. exact from_splits_order_irrelevant_l. Qed.
+Print Assumptions from_splits_order_irrelevant.
+
+(* from_splits_rebuilds (rooted): the namespace's members are the tree's leaf taxa (vacated accession
+   indices allowed); the split bitmasks of the rooted encoding, handed over in ANY order, rebuild a
+   tree of the same topology.
+   FULL STATEMENT also for unrooted encodings (not proved):
+     is_true rooted = false -> ... Permutation l (enc_splits (encode acc rooted t)) ->
+     set_eq (enc_splits (encode acc (Some false) (to_tree (from_splits ns count rooted l))))
+            (enc_splits (encode acc rooted t))
+   and for namespaces with members that are not on the tree (they stay children of the root).
+   Both are covered by the correspondence run and its oracle only. *)
+Theorem from_splits_rebuilds_rooted_partial : forall acc,
+  (forall x, 0 <= acc x) -> (forall x y, acc x = acc y -> x = y) ->
+  forall ns, (NoDup (map fst ns) /\ Forall (fun p => 0 <= fst p /\ snd p = acc (fst p)) ns) ->
+  (2 <= length ns)%nat ->
+  forall count rooted t l,
+  is_true rooted = true -> leaves_ok t = true ->
+  Permutation.Permutation (leaf_taxa t) (map (fun p => Some (fst p)) ns) ->
+  (forall p, In p ns -> snd p < count) ->
+  Permutation.Permutation l (enc_splits (encode acc rooted t)) ->
+  canon acc (to_tree (from_splits ns count rooted l)) = canon acc t.
+Proof. exact from_splits_rebuilds_rooted_l. Qed.
+Print Assumptions from_splits_rebuilds_rooted_partial.
+
+(* greedy insertion of ONE split into any well-formed working tree: masks stay consistent, no clade is
+   lost, at most the split itself is gained, the leaves are kept, and the split IS gained whenever it
+   is disjoint-or-nested with every clade of the tree (insert_iff_compatible, "if" direction) *)
+Theorem insert_split_spec : forall s k, s <> 0 ->
+  (0 <= k /\ Z.testbit s k = true /\ forall j, 0 <= j < k -> Z.testbit s j = false) ->
+  forall t, mwf t -> msubset s (m_mask t) ->
+  (mwf (insert_split s (2 ^ k) t) /\ m_mask (insert_split s (2 ^ k) t) = m_mask t /\
+   (forall y, In y (mclades (insert_split s (2 ^ k) t)) -> In y (mclades t) \/ y = s) /\
+   (forall y, In y (mclades t) -> In y (mclades (insert_split s (2 ^ k) t))) /\
+   Permutation.Permutation (mleaves (insert_split s (2 ^ k) t)) (mleaves t)) /\
+  ((forall y, In y (mclades t) -> (mdisjoint s y \/ msubset s y \/ msubset y s)) ->
+   In s (mclades (insert_split s (2 ^ k) t))).
+Proof. exact insert_ok. Qed.
+Print Assumptions insert_split_spec.
+
+(* Tree.is_compatible_with_bipartition on a rooted encoded tree = compatible with every clade
+   (the `bipartition in self.bipartition_encoding` shortcut is sound because the clades of one tree
+   are pairwise disjoint-or-nested).
+   FULL STATEMENT also for unrooted trees (4-way split compatibility against every normalised split):
+   not proved; covered by the correspondence probes and the oracle. *)
+Theorem tree_compatible_rooted_spec_partial : forall acc rooted t s,
+  (forall x, 0 <= acc x) -> (forall x y, acc x = acc y -> x = y) ->
+  is_true rooted = true -> leaves_ok t = true ->
+  Z.land (cmask acc t) s = s ->
+  (tree_is_compatible_with (enc_splits (encode acc rooted t)) (cmask acc t) s = true <->
+   forall b, In b (enc_splits (encode acc rooted t)) -> (mdisjoint b s \/ msubset b s \/ msubset s b)).
+Proof. exact tree_compatible_rooted_spec_l. Qed.
+Print Assumptions tree_compatible_rooted_spec_partial.
+
+(* the clades of one tree with pairwise distinct leaf taxa are pairwise disjoint-or-nested *)
+Theorem tree_clades_laminar : forall acc t,
+  (forall x, 0 <= acc x) -> (forall x y, acc x = acc y -> x = y) ->
+  NoDup (leaf_taxa t) -> forall a b, In a (clades acc t) -> In b (clades acc t) ->
+  (mdisjoint a b \/ msubset a b \/ msubset b a).
+Proof. exact clades_laminar. Qed.
+Print Assumptions tree_clades_laminar.
